@@ -102,6 +102,9 @@ class World:
         return 200, json.dumps(reply_dict(c['script'][0])).encode(), {}
 
 
+PPD = False
+
+
 def build_call(w, mod, c):
     """positional/keyword arguments of the client call for this case."""
     m = callrun.METHODS[c['method']]
@@ -111,6 +114,10 @@ def build_call(w, mod, c):
 
     def msg(val):
         d = callrun.concretise(val)
+        if dep and PPD:
+            # option proto-plus-deps: the dependency package is a proto-plus library of its own
+            from other.dep_v1.types import dep as depmod
+            return depmod.DepReq(**d)
         if dep:
             from other.dep.v1 import dep_pb2
             if 'kind' in d:
@@ -186,6 +193,8 @@ async def run_async(w, client, mod, c):
 
 def main():
     pl = rt.read_payload()
+    global PPD
+    PPD = bool(pl.get('ppd'))
     w = World(pl)
     # two servers and two clients per kind: a call must go out on the channel of the client it was made on
     srv = lg.Server(w.respond_on(1))
